@@ -40,17 +40,7 @@ DRV_FAM = {
 }
 SCIPY_SUB = {"GammaScipyDistribution": sts.gamma, "BetaScipyDistribution": sts.beta,
              "GumbelScipyDistribution": sts.gumbel_r}
-# documented parameter order (constructor / positional call order, and the order of the Lean formulas' arguments);
-# independent of what the code under test reports as `.parameters`: for a ScipyDistribution subclass the documented
-# order is scipy's "(shape(s), loc, scale)"
-DOC_PARAMS = {
-    "WeibullDistribution": ["alpha", "beta", "gamma"], "LogNormalDistribution": ["mu", "sigma"],
-    "NormalDistribution": ["mu", "sigma"], "LogNormalNormFitDistribution": ["mu_norm", "sigma_norm"],
-    "ExponentiatedWeibullDistribution": ["alpha", "beta", "delta"],
-    "GeneralizedGammaDistribution": ["m", "c", "lambda_"], "VonMisesDistribution": ["kappa", "mu"],
-    "GammaScipyDistribution": ["a", "loc", "scale"], "BetaScipyDistribution": ["a", "b", "loc", "scale"],
-    "GumbelScipyDistribution": ["loc", "scale"],
-}
+DOC_PARAMS = sentinel.DOC_PARAMS
 
 
 # ---------------------------------------------------------------------------
@@ -172,17 +162,19 @@ def run_rows(ck, rows, rng, n_val, only_fixed=None):
     for row in rows:
         if only_fixed is not None and bool(row["fixed"]) != only_fixed:
             continue
+        if row["fam"] in sentinel.FAMILY_ERRORS:
+            continue
         name = row["fam"]
         cls, params = sentinel.family(name)
         k = len(params)
         for _ in range(n_val):
-            arg = list(sentinel.random_theta(rng, name, wide=False).values())
-            farg = list(sentinel.random_theta(rng, name, wide=False).values())
-            expl = list(sentinel.random_theta(rng, name, wide=False).values())
+            arg = sentinel.random_values(rng, name, wide=False)
+            farg = sentinel.random_values(rng, name, wide=False)
+            expl = sentinel.random_values(rng, name, wide=False)
             if rng.integers(0, 4) == 0:
                 # whole-number parameter values handed over as Python ints (an explicit lambda_=2, sigma=1, ...)
                 expl = [int(max(1, round(v))) if v > 0 else int(round(v)) for v in expl]
-            dep = list(sentinel.random_theta(rng, name, wide=False).values())
+            dep = sentinel.random_values(rng, name, wide=False)
             eff_theta = {params[p]: (farg[p] if (p in row["fixed"] and (row["mode"] == 2 or p not in row["expl"]))
                                      else dep[p] if row["mode"] == 2
                                      else expl[p] if p in row["expl"] else arg[p]) for p in range(k)}
@@ -348,7 +340,12 @@ def explore_case(ck, name, theta, theta0, jobs, pending):
     case = {"kind": "explore", "family": name, "theta": theta, "theta0": theta0,
             "x": [float(v) for v in xs], "p": [float(v) for v in ps]}
     bad = []
-    A = cls(**theta)
+    try:
+        A = cls(**theta)
+    except Exception as e:  # noqa: BLE001
+        ck.case(case, nontrivial=True, sample=False)
+        ck.fail(_sig(name, "__init__", "constructs"), case, f"{name}(**{theta}) raises {type(e).__name__}: {e}")
+        return case
     ref = {}
     for meth in METHS:
         arr = ps if meth == "icdf" else xs
@@ -558,10 +555,43 @@ def compare_model(ck, pending, results):
 # ---------------------------------------------------------------------------
 
 
+def check_documented_parameters(ck):
+    """documented parameterisation: the family's parameters have the documented names in the documented order (the
+    order of `.parameters` is the positional order of the constructor and of explicit parameters in a call; for a
+    ScipyDistribution subclass: scipy's shape names, then loc, scale)"""
+    for name, (pred, text) in sentinel.FAMILY_ERRORS.items():
+        case = {"kind": "params", "family": name}
+        ck.case(case, nontrivial=True, sample=False)
+        ck.fail(_sig(name, "__init__" if pred == "constructs" else "parameters", pred), case, text)
+    for name, cls, params in sentinel.live_families():
+        case = {"kind": "params", "family": name}
+        ck.case(case, nontrivial=True, sample=False)
+        ck.count("params:" + name)
+        bad = check_params(case)
+        for sig, detail in bad:
+            ck.fail(sig, case, detail)
+
+
+def check_params(case):
+    name = case["family"]
+    cls, _ = sentinel.family(name)
+    try:
+        got = list(cls().parameters)
+    except Exception as e:  # noqa: BLE001
+        return [(_sig(name, "__init__", "constructs"), f"{name}() raises {type(e).__name__}: {e}")]
+    if sorted(got) != sorted(DOC_PARAMS[name]):
+        return [(_sig(name, "parameters", "documented_parameters"),
+                 f"{name}().parameters lists {got}, the documented parameters are {DOC_PARAMS[name]}")]
+    if got != DOC_PARAMS[name]:
+        return [(_sig(name, "parameters", "documented_parameter_order"),
+                 f"{name}().parameters lists {got}, documented (positional) order is {DOC_PARAMS[name]}")]
+    return []
+
+
 def observe_unknown_parameter_name(ck):
     """a keyword that names no parameter of the family, passed to cdf/icdf/pdf: C05 quantifies over the family's own
     parameters, so the outcome class gets NO verdict; the path is executed and counted"""
-    for name, cls, params in TABLES["families"]:
+    for name, cls, params in sentinel.live_families():
         for meth in METHS:
             _, exc = call(cls(), meth, 0.5, nosuch=1.5)
             ck.count("observed_no_verdict:unknown_parameter_name:" + (exc.split(":")[0] if exc else "accepted"))
@@ -611,6 +641,7 @@ def main(ck):
         named = [r for r in rows if (r["fam"], r["meth"], tuple(r["fixed"]), tuple(r["expl"]), r["mode"]) in keys
                  and not r["fixed"]]
         run_rows(ck, named, rng, 2)
+    check_documented_parameters(ck)
     # (1) corpus
     jobs, pending = [], []
     for name, theta, theta0 in corpus_cases():
@@ -619,7 +650,7 @@ def main(ck):
     run_rows(ck, rows, rng, 3 if thorough else 1, only_fixed=False)
     # (3) exploration
     n_theta = 400 if thorough else 24
-    for name, _, _ in TABLES["families"]:
+    for name, _, _ in sentinel.live_families():
         for _ in range(n_theta):
             theta = sentinel.random_theta(rng, name, wide=True)
             theta0 = sentinel.random_theta(rng, name, wide=True)
@@ -634,7 +665,9 @@ def main(ck):
 
 def replay(ck, payload):
     case = payload["case"]
-    if case["kind"] == "row":
+    if case["kind"] == "params":
+        bad = check_params(case)
+    elif case["kind"] == "row":
         row = None
         for r in TABLES["get"]:
             if (r["fam"], r["meth"], r["fixed"], r["expl"], r["mode"]) == (
